@@ -10,7 +10,8 @@ EXTENDS GenCli
 Passwords == <<"", "TREZOR", CpsToStr(<<112, 228, 115, 115>>), CpsToStr(<<65313, 65314, 65315>>), "pass word">>
 \* selector: <<kind, text>>  kind 0 default, 1 account index, 2 hd path
 Selectors == << <<0, "">>, <<1, "0">>, <<1, "1">>, <<1, "2">>, <<1, "7">>, <<1, "2147483647">>,
-                <<2, "m/44'/60'/0'/0/3">>, <<2, "m/0">>, <<2, "m/0'/1">>, <<2, "m/44'/60'/1'/0/0">>, <<2, "m/2147483647'/0">> >>
+                <<2, "m/44'/60'/0'/0/3">>, <<2, "m/0">>, <<2, "m/0'/1">>, <<2, "m/44'/60'/1'/0/0">>, <<2, "m/2147483647'/0">>,
+                <<2, "m/44'/60'/0'/0/0/1">>, <<2, "m/44'/60'/0'/0/7/3'/2">>, <<2, "m/44'/60'/0'">> >>
 Src(r) == IF r = 0 THEN "flag" ELSE "env"
 AcctOf(mn, mnSrc, pw, pwSrc, sel, selSrc) ==
   [mnemonic |-> Opt(mnSrc, mn),
